@@ -94,6 +94,10 @@ def run_one(mod, prop, entry, base):
                 return "ok", "analysis refuses the mutated tree: %s" % str(e)[:200]
             return "WRONG", "analysis broke on the mutated tree: %s" % str(e)[:300]
         v = violations_of(ck)
+        if ck.broken_notes and not v:
+            if entry["kind"] == "M" and entry.get("expect") == "BROKEN":
+                return "ok", "analysis refuses the mutated tree: %s" % ck.broken_notes[0][:200]
+            return "WRONG", "analysis broke on the mutated tree: %s" % ck.broken_notes[0][:300]
         if entry["kind"] == "M":
             hits = [k for k, o in v if k.startswith(entry["expect"])]
             if hits:
